@@ -39,6 +39,7 @@ type validationContext struct {
 	function       *Function
 	functionName   string
 	loopDepth      int
+	switchDepth    int // switches entered since the innermost enclosing loop body
 	inContinuing   bool
 	expressionUsed map[ExpressionHandle]bool
 }
@@ -534,6 +535,8 @@ func (v *Validator) validateStatement(index int, stmt *Statement) {
 			v.addErrorInStatement(index, fmt.Sprintf("selector expression %d does not exist", kind.Selector))
 		}
 		hasDefault := false
+		v.context.switchDepth++
+		defer func() { v.context.switchDepth-- }()
 		for _, c := range kind.Cases {
 			if _, ok := c.Value.(SwitchValueDefault); ok {
 				if hasDefault {
@@ -550,6 +553,9 @@ func (v *Validator) validateStatement(index int, stmt *Statement) {
 	case StmtLoop:
 		oldDepth := v.context.loopDepth
 		v.context.loopDepth++
+		oldSwitchDepth := v.context.switchDepth
+		v.context.switchDepth = 0
+		defer func() { v.context.switchDepth = oldSwitchDepth }()
 
 		v.validateBlock(kind.Body)
 
@@ -567,6 +573,9 @@ func (v *Validator) validateStatement(index int, stmt *Statement) {
 		v.context.loopDepth = oldDepth
 
 	case StmtBreak:
+		if v.context.switchDepth > 0 {
+			break // exits the enclosing switch statement; no loop is required
+		}
 		if v.context.loopDepth == 0 {
 			v.addErrorInStatement(index, "break outside of loop")
 		}
